@@ -5,7 +5,7 @@ from ..model import (AnalysisError, FUNC_TYPES, U, call_attr, call_name, dotted,
                      short, walk_body, walk_local, ancestors, parent, const_str, kwarg, literal)
 from ..util import params, find_calls, assigns_to, trace, stmt_of, has_exit, syn_dominates, lexically_before
 from .. import feat
-from ..absint import Interp, State, Unsupported, T, F, UNK, unroll_literal_loops
+from ..absint import Interp, State, Unsupported, T, F, UNK, unroll_literal_loops, desugar_quantifiers
 
 CFG = "insights.client.config"
 OFFLINE_VETO = ["to_json", "status", "test_connection", "checkin", "unregister", "check_results", "diagnosis"]
@@ -85,6 +85,11 @@ def r3_unknown_filtered(cx):
         if ".difference(" in t and t.endswith(")"):
             a, b = t[:-1].split(".difference(", 1)
             t = "%s - %s" % (a, b)
+        # a module constant that is nothing but the key set of DEFAULT_OPTS (bound once, DEFAULT_OPTS is never mutated) reads as DEFAULT_OPTS
+        for nm, v in m.top.items():
+            if U(v).replace(".keys()", "") in ("frozenset(DEFAULT_OPTS)", "set(DEFAULT_OPTS)", "tuple(DEFAULT_OPTS)", "list(DEFAULT_OPTS)", "sorted(DEFAULT_OPTS)") \
+                    and len([x for x in ast.walk(m.tree) if isinstance(x, ast.Name) and x.id == nm and isinstance(x.ctx, (ast.Store, ast.Del))]) == 1:
+                t = t.replace(nm, "DEFAULT_OPTS")
         return t.replace("set(DEFAULT_OPTS)", "DEFAULT_OPTS").replace("list(%s)" % d, d)
     ok = len(un) == 1 and _setdiff(U(un[0].value)) == "set(%s) - DEFAULT_OPTS" % d
     cx.require(ok, un[0] if un else fn, "unknown = keys of the incoming dict that are not in DEFAULT_OPTS", construct=short(un[0]) if un else "(none)")
@@ -350,6 +355,7 @@ def r5_implication_table(cx):
             continue
         seen.add(n)
         unroll_literal_loops(table[n])
+        desugar_quantifiers(table[n])
         for c in find_calls(table[n].body):
             if U(c.func).startswith("self.") and c.func.attr in table:
                 todo.append(c.func.attr)
